@@ -190,6 +190,10 @@ def rules(P, R, prefix="C18"):
                         if "serde" in a:
                             attrs.append("%s.%s: %s" % (t, f_["name"], a))
             R.judge(not attrs, prefix + ".X5", "%s has no serde field attributes%s" % (t, tag), "", "", "serde attributes change the file format asymmetrically: %s" % attrs)
+            if not custom and kinds == {"Serialize", "Deserialize"}:
+                from .. import serdeshape
+                probs = serdeshape.check(prog, env, t)
+                R.judge(not probs, prefix + ".X5", "%s: derived encoding covers every field%s" % (t, tag), "", "", "; ".join(probs)[:400])
 
 
 def check(P, R, tier):
